@@ -177,6 +177,20 @@ def run_plain(case, root, viol, cnt):
                     return
         except (E.ExperimentInvalidConfigurationError, E.FlowIRConfigurationErrors):
             pass
+        # ... and so must the dataflow: the edges of the package's graph versus those of the instance's
+        try:
+            import experiment.model.graph as G
+            pg = G.WorkflowGraph.graphFromPackage(ep, platform=pkg.get('platform'), primitive=False,
+                                                  variable_files=list(vpaths), createInstanceConfiguration=False)
+            pe = set(pg.graph.edges())
+            ie = set(exp.experimentGraph.graph.edges())
+            cnt['probe.package_vs_instance_edges'] = cnt.get('probe.package_vs_instance_edges', 0) + 1
+            if pe != ie:
+                viol.append({'property': 'C07', 'sig': 'store:edges-of-the-instance-differ-from-the-package',
+                             'detail': {'only_in_package': sorted(pe - ie)[:6], 'only_in_instance': sorted(ie - pe)[:6]}})
+                return
+        except (E.ExperimentInvalidConfigurationError, E.FlowIRConfigurationErrors):
+            pass
     except (E.ExperimentInvalidConfigurationError, E.FlowIRConfigurationErrors, E.UnusedDataReferenceError,
             E.UndeclaredDataReferenceError) as e:
         # the loader or the validation rejects the generated package (the textual replica rewrite and the textual
